@@ -30,6 +30,21 @@ class MutList(list):
         return "%s%s" % (self.kind, list.__repr__(self))
 
 
+class PyMap(dict):
+    """HashMap / BTreeMap / HashSet (values None) model; keys must be hashable model values"""
+    kind = "map"
+
+
+def hkey(v):
+    if isinstance(v, tuple):
+        return tuple(hkey(x) for x in v)
+    if isinstance(v, list):
+        return ("list",) + tuple(hkey(x) for x in v)
+    if isinstance(v, dict):
+        return ("dict",) + tuple(sorted((k, hkey(x)) for k, x in v.items()))
+    return v
+
+
 class Wire(int):
     """an integer that came from untrusted input (e.g. a CBOR head length)"""
     def __repr__(self):
@@ -279,6 +294,8 @@ class Interp:
             v = self.lookup(p)
             if v is not None:
                 return v
+            if p in self.consts:
+                return self.consts[p]
             if p == "None":
                 return ("None",)
             if p in ("true", "false"):
@@ -299,6 +316,9 @@ class Interp:
             return -2**63
         if last[:1].isupper():
             return ("enum", p, [])
+        segs = p.split("::")
+        if len(segs) >= 2 and segs[-2] == "Rule":
+            return ("enum", p, [])      # pest's generated Rule enum has lower-case variants
         return OPAQUE
 
     def e_ref(self, e):
@@ -454,6 +474,9 @@ class Interp:
     def e_tuple(self, e):
         return ("tuple", [self.eval(x) for x in e["e"]])
 
+    def e_array(self, e):
+        return ("list", [self.eval(x) for x in e["e"]])
+
     def e_struct(self, e):
         return ("enum", e["p"], {f["n"]: self.eval(f["e"]) for f in e["fields"] if self.active(f)})
 
@@ -572,6 +595,9 @@ class Interp:
             if rng and isinstance(a, int) and not isinstance(a, bool):
                 return ("Ok", a) if rng[0] <= a <= rng[1] else ("Err", OPAQUE)
             return OPAQUE
+        if fname and fname.split("::")[-1] in ("new", "default", "with_capacity") and fname.split("::")[0] in ("HashMap", "HashSet", "BTreeMap", "BTreeSet") \
+                or (fname or "").replace("std::collections::", "") in ("HashMap::new", "HashSet::new", "BTreeMap::new", "BTreeSet::new"):
+            return PyMap()
         if fname in ("Vec::new", "String::new", "Vec::with_capacity", "String::with_capacity"):
             m = MutList()
             m.kind = "str" if fname.startswith("String") else "vec"
@@ -616,6 +642,46 @@ class Interp:
         if m == "clone" and (isinstance(recv, MutList) or (isinstance(recv, tuple) and recv[:1] == ("enum",))):
             import copy
             return copy.deepcopy(recv)
+        if isinstance(recv, PyMap):
+            if m == "insert" and len(args) == 1:
+                new = hkey(args[0]) not in recv
+                recv[hkey(args[0])] = None
+                return new
+            if m == "insert" and len(args) == 2:
+                old = recv.get(hkey(args[0]))
+                had = hkey(args[0]) in recv
+                recv[hkey(args[0])] = args[1]
+                return ("Some", old) if had else ("None",)
+            if m in ("contains", "contains_key") and args:
+                if args[0] is OPAQUE:
+                    return OPAQUE
+                return hkey(args[0]) in recv
+            if m == "get" and args:
+                k = hkey(args[0])
+                return ("Some", recv[k]) if k in recv else ("None",)
+            if m == "remove" and args:
+                k = hkey(args[0])
+                if k in recv:
+                    v = recv.pop(k)
+                    return ("Some", v) if v is not None else True
+                return ("None",)
+            if m == "is_empty":
+                return len(recv) == 0
+            if m == "len":
+                return len(recv)
+            if m == "entry" and args:
+                return ("entry", recv, hkey(args[0]))
+            if m in ("iter", "keys"):
+                return ("list", list(recv.keys()))
+            if m == "values":
+                return ("list", list(recv.values()))
+        if isinstance(recv, tuple) and recv[:1] == ("entry",):
+            if m == "or_insert" and args:
+                if recv[2] not in recv[1]:
+                    recv[1][recv[2]] = args[0]
+                return recv[1][recv[2]]
+            if m == "or_default":
+                return recv[1].setdefault(recv[2], OPAQUE)
         if isinstance(recv, tuple) and recv[:1] == ("list",):
             recv_list = recv[1]
         elif isinstance(recv, MutList):
@@ -768,6 +834,8 @@ class Interp:
             return ("Some", ("str", recv[1][:-len(pre)])) if recv[1].endswith(pre) else ("None",)
         if m in ("starts_with", "ends_with", "contains") and isinstance(recv, tuple) and recv[:1] == ("str",) and args and isinstance(args[0], tuple) and args[0][:1] == ("str",):
             return {"starts_with": recv[1].startswith(args[0][1]), "ends_with": recv[1].endswith(args[0][1]), "contains": args[0][1] in recv[1]}[m]
+        if m in ("to_string", "to_owned", "into", "as_str", "as_ref", "clone") and isinstance(recv, tuple) and recv[:1] == ("str",):
+            return recv
         if m == "is_empty" and isinstance(recv, tuple) and recv[:1] == ("str",):
             return recv[1] == ""
         if m in ("trim", "trim_start", "trim_end") and isinstance(recv, tuple) and recv[:1] == ("str",):
